@@ -113,9 +113,25 @@ func substitute(regex string, refs []VarRef, vars map[string]string) (string, er
 		if !ok {
 			return "", fmt.Errorf("variable %q not defined", refs[i].Name)
 		}
-		expr = expr[:refs[i].Pos] + "(?:" + binaryregexp.QuoteMeta(v) + ")" + expr[refs[i].Pos:]
+		expr = expr[:refs[i].Pos] + "(?:" + quoteBytes(v) + ")" + expr[refs[i].Pos:]
 	}
 	return expr, nil
+}
+
+// quoteBytes quotes a captured byte string for use inside a pattern: pattern
+// text is UTF-8, so bytes >= 0x80 are written as \xHH escapes (a raw paste
+// would be an invalid or a different pattern).
+func quoteBytes(v string) string {
+	q := binaryregexp.QuoteMeta(v)
+	var sb strings.Builder
+	for i := 0; i < len(q); i++ {
+		if q[i] >= 0x80 {
+			fmt.Fprintf(&sb, `\x%02x`, q[i])
+		} else {
+			sb.WriteByte(q[i])
+		}
+	}
+	return sb.String()
 }
 
 // SeqStep searches regex (after variable substitution) in the data of direction
@@ -360,7 +376,9 @@ func (ev *astEval) eval(n *Node, in []Position) []alt {
 					ev.err = ErrAmbiguous
 					return nil
 				}
-				if a.negDropped && k.hasNegatedData() {
+				// ... and neither is a later capture/use chain: matching is leftmost without backtracking, so a
+				// chain that succeeds from the later position may fail from the retained earlier one
+				if a.negDropped && (k.hasNegatedData() || k.hasVars()) {
 					ev.err = ErrAmbiguous
 					return nil
 				}
@@ -417,6 +435,19 @@ func (n *Node) hasNegatedData() bool {
 	}
 	for _, k := range n.Kids {
 		if k.hasNegatedData() {
+			return true
+		}
+	}
+	return false
+}
+
+// hasVars reports whether a payload filter of the subtree defines or uses a variable.
+func (n *Node) hasVars() bool {
+	if n.Kind == KAtom {
+		return n.Atom.IsData() && (strings.Contains(n.Atom.Regex, "(?P<") || strings.Contains(n.Atom.Regex, "@"))
+	}
+	for _, k := range n.Kids {
+		if k.hasVars() {
 			return true
 		}
 	}
